@@ -562,8 +562,10 @@ func runC04(c *core.Ctx, o Options) {
 		checkSendChainNoSpawn(c, s, "F5")
 	}
 	checkNoMessageDropped(c, "F7")
+	checkReaderQueue(c, "F8", fns)
 	c.Explanation += " F4 counts goroutines through helpers shared by both serve functions (a literal inside such a helper runs for each caller; an unexported method or method value handed to errgroup.Go is a goroutine of its caller). F7 also covers every receive from a byte-message channel in the root package: on each path on which the receive succeeded the value is passed on (to a call, a send, a store or the result) before the function returns or loops — a message that is only measured and dropped is lost."
-	c.RuleMin = map[string]int{"F1": 3, "F2": 3, "F3": 1, "F4": 6, "F5": 19, "F6": 12, "F7": 7}
+	c.Explanation += " F8: the capacity of Conn.reader is NewConn's size parameter and that argument is zero at every call site (a constant 0 or a field nothing assigns) — what the reader has queued when the connection ends is not delivered, so nothing may be queued there; no len()/cap() of a channel decides anything in the transport. (The initiating side passes the caller's bufSize: recorded finding D19.)"
+	c.RuleMin = map[string]int{"F1": 3, "F2": 3, "F3": 1, "F4": 6, "F5": 19, "F6": 12, "F7": 7, "F8": 3}
 	c.MinObl = 40
 }
 
@@ -992,4 +994,95 @@ func selectIndexOf(sel *ssa.Select, v ssa.Value) int {
 		k++
 	}
 	return -1
+}
+
+// checkReaderQueue (C04.F8): when a connection ends, the inbound pump of both serve functions leaves its loop as soon as the
+// connection's context is done; whatever the reader has framed and queued in Conn.reader by then is never handed to the handler.
+// With an unbuffered queue nothing can be waiting there (the reader's hand-off is a rendezvous with the pump, and what the pump
+// has taken is in the handler's own queue, which the handler drains when it stops). So: the capacity given to Conn.reader is the
+// size parameter of NewConn, and that argument is zero at every call site — a constant 0 or a field nothing ever assigns. Also no
+// len()/cap() of a channel decides anything on the inbound path (a queue's length says nothing about a sender blocked on it).
+func checkReaderQueue(c *core.Ctx, rule string, fns []*ssa.Function) {
+	nc := c.Func("", "NewConn")
+	rf := c.Field("", "Conn", "reader")
+	if !c.Anchor("connection constructor", nc != nil && rf != nil && len(nc.Params) >= 3, "NewConn, Conn.reader", posOf(nc)) {
+		return
+	}
+	// the reader queue's capacity is NewConn's size parameter
+	okCap := false
+	an.AllInstrs(nc, func(in ssa.Instruction) {
+		st, ok := in.(*ssa.Store)
+		if !ok {
+			return
+		}
+		fa, ok := st.Addr.(*ssa.FieldAddr)
+		if !ok || an.FieldOf(fa) != rf {
+			return
+		}
+		if mk, ok := st.Val.(*ssa.MakeChan); ok {
+			if mk.Size == ssa.Value(nc.Params[2]) {
+				okCap = true
+			}
+			if k, isK := an.ConstInt(mk.Size); isK && k == 0 {
+				okCap = true
+			}
+		}
+	})
+	c.Check(okCap, rule, "NewConn", "Conn.reader is made with the size NewConn is given", nc.Pos(), "make(chan []byte, msgBuffSize)", "the capacity of Conn.reader is not NewConn's size parameter (or 0)")
+	neverAssigned := func(f *types.Var) bool {
+		assigned := false
+		for _, fn := range fns {
+			an.AllInstrs(fn, func(in ssa.Instruction) {
+				if st, ok := in.(*ssa.Store); ok {
+					if fa, ok := st.Addr.(*ssa.FieldAddr); ok && an.FieldOf(fa) == f {
+						if k, isK := an.ConstInt(st.Val); !isK || k != 0 {
+							assigned = true
+						}
+					}
+				}
+			})
+		}
+		return !assigned
+	}
+	n := 0
+	for _, fn := range fns {
+		an.AllInstrs(fn, func(in ssa.Instruction) {
+			call, ok := in.(*ssa.Call)
+			if !ok || an.StaticCallee(&call.Call) != nc || len(call.Call.Args) < 3 {
+				return
+			}
+			n++
+			arg := call.Call.Args[2]
+			okArg, why := false, ""
+			if k, isK := an.ConstInt(arg); isK {
+				okArg = k == 0
+				why = fmt.Sprintf("the constant %d", k)
+			} else if f, _ := an.LoadedField(arg); f != nil {
+				okArg = neverAssigned(f)
+				why = "the field " + an.FieldName(f) + ", which is assigned a non-zero value somewhere"
+			} else {
+				why = an.Render(arg) + ", a value chosen by the caller"
+			}
+			c.Check(okArg, rule, an.NameOf(fn), "the connection's reader queue is unbuffered", call.Pos(), "NewConn(…, 0, …) (or a size field nothing assigns)",
+				"the reader queue of this connection gets the capacity "+why+": messages the reader has framed and queued when the connection ends (the peer sends and hangs up) are still in that queue when the inbound pump leaves on the cancelled context, and are never given to the handler")
+		})
+	}
+	c.Check(n >= 2, rule, "", "NewConn call sites found", token.NoPos, fmt.Sprint(n), fmt.Sprintf("%d call sites of NewConn", n))
+	// no len()/cap() of a channel in the transport
+	for _, fn := range fns {
+		if fn.Pkg == nil || fn.Pkg != nc.Pkg {
+			continue
+		}
+		an.AllInstrs(fn, func(in ssa.Instruction) {
+			call, ok := in.(*ssa.Call)
+			if !ok {
+				return
+			}
+			if b, isB := call.Call.Value.(*ssa.Builtin); isB && (b.Name() == "len" || b.Name() == "cap") && len(call.Call.Args) == 1 {
+				if _, isCh := call.Call.Args[0].Type().Underlying().(*types.Chan); isCh {
+					c.Ob(rule, an.NameOf(fn), b.Name()+"() of a channel", call.Pos()).Fail("%s decides on %s(%s): the length of a queue does not count a sender that is blocked on it (with an unbuffered queue it is always 0), so a message that is being handed over is taken for absent", an.NameOf(fn), b.Name(), an.Render(call.Call.Args[0]))
+				}
+			}
+		})
+	}
 }
